@@ -132,15 +132,8 @@ Lemma unswitch_one_G : forall i st, tx st = Some true -> Inv st -> G st /\ detac
   G (unswitch_one i st) /\ detached_new (unswitch_one i st).
 Proof.
   intros i st Ht HI [HG HN]. unfold unswitch_one. destruct (oksw (get st i)) as [old|]; auto.
-  destruct (itnew (get st i)) eqn:Etn.
-  - split.
-    + apply G_pass; auto. intros k o Hk Hj. unfold only. destruct (Nat.eqb_spec k i); [subst|auto].
-      pose proof (HN i o Hk) as Hn. simpl in Hn.
-      assert (Tn : itnew o = true) by (rewrite <- (get_nth _ _ _ Hk); exact Etn).
-      rewrite Ht in *. revert Hj Hn Tn. kcase.
-    + intros k o' Hk. apply app_all_inv_nth in Hk as [o [Hk ->]]. unfold only.
-      pose proof (HN k o Hk) as Hn. simpl in Hn. destruct (Nat.eqb k i); auto.
-  - split.
+  destruct (itnew (get st i)) eqn:Etn; [split; auto|].
+  split.
     + intros Hb. simpl in Hb. apply orb_false_elim in Hb as [Hb Hs]. apply negb_false_iff in Hs.
       assert (HG' : G (app_claim i old (fun o => set_iimap true (set_key (Some old) o)) st)).
       { apply G_claim; auto. intros o Hk Hj.
@@ -441,6 +434,8 @@ Proof.
     - apply G_bad_true. simpl. apply orb_true_r. }
   destruct (Z.eqb c 5); auto. destruct (Z.eqb c 0); simpl; auto.
   destruct (negb (memz (key_pk (get st1 h)) rws)); simpl; auto.
+  destruct (odel (get st1 h)); simpl; auto.
+  destruct (holder k st1); simpl; auto. apply get_miss_G; auto.
 Qed.
 
 Lemma expire_jk : forall t o, jk t o = true -> jk t (expire_obj o) = true.
